@@ -391,4 +391,36 @@ def valueRows (o : Opts) (addrWidth : Nat) (root : List UInt8) (rootBits start l
 def emptyRows (o : Opts) (addrWidth : Nat) (tree : List Char) : List (List Char) :=
   flush (mkCols o addrWidth [] (hexHeader o) (asciiHeader o) tree)
 
+/-! ### a value inside a tree dump: nested root buffers (dump.go:101, 270-271, 306, 367-378, 409)
+
+  `dump` computes `maxAddrIndentWidth = max over values (2*rootDepth + DigitsInBase(stop byte))`, makes
+  the address column that wide (`colW`), and calls dumpEx with `addrWidth = maxAddrIndentWidth - rootDepth`.
+  dumpEx writes `rootIndent` (`2*rootDepth` blanks) followed by the address padded to `addrWidth`:
+  `colW + rootDepth` characters, which `FlushLine` cuts to `colW` (quirk kept: for `rootDepth ≥ 1`
+  the last `rootDepth` digits of every address of a nested root buffer are lost — known finding
+  `nested-root-address-truncated`). -/
+
+def rootIndent (rootDepth : Nat) : List Char := List.replicate (2 * rootDepth) ' '
+
+/-- the address text dumpEx writes for address `a` of a root buffer at `rootDepth` -/
+def addrText (o : Opts) (colW rootDepth a : Nat) : List Char :=
+  rootIndent rootDepth ++ padFormat a o.addrbase true (colW - rootDepth)
+
+/-- what is visible of it after `FlushLine` (cut to the column width, then padded) -/
+def addrCell (o : Opts) (colW rootDepth a : Nat) : List Char :=
+  let t := addrText o colW rootDepth a
+  let t := if t.length > colW then t.take colW else t
+  t ++ List.replicate (colW - t.length) ' '
+
+/-- rows printed by one dumpEx call inside a tree dump.  `header`: depth 0, root or format value
+    (dump.go:120); `willDisplay`: dump.go:117; `tree`: the tree column's text. -/
+def treeValueRows (o : Opts) (colW rootDepth : Nat) (header willDisplay : Bool) (root : List UInt8)
+    (rootBits start len : Nat) (tree : List Char) (wo : Nat := 0) : List (List Char) :=
+  if willDisplay then
+    let (addr, hex, ascii) := dataColumns o (colW - rootDepth) (rootIndent rootDepth) root rootBits start len wo
+    (if header then flush (mkCols o colW [] (hexHeader o) (asciiHeader o) []) else [])
+      ++ flush (mkCols o colW addr hex ascii tree)
+  else
+    flush (mkCols o colW [] (if header then hexHeader o else []) (if header then asciiHeader o else []) tree)
+
 end FqModel.Dump
